@@ -131,7 +131,7 @@ def op_alphabet(sc, classes):
             if ci == 0 or ii == 0:
                 ops.append(('unpack', cname, ii))
     for slot in range(3):
-        for what in ('scalar', 'append', 'nested', 'pack'):
+        for what in ('scalar', 'bytes', 'append', 'nested', 'pack'):
             ops.append((what, slot))
     return ops
 
@@ -186,6 +186,12 @@ def apply_op(mod, sc, live, op):
             return None
         setattr(p, nm, (v + 1) % 7 if isinstance(v, int) else v + b'!')
         return slot
+    if kind == 'bytes':
+        nm, v = first_field(p, lambda v: isinstance(v, bytes))
+        if nm is None:
+            return None
+        setattr(p, nm, v + b'+')
+        return slot
     if kind == 'append':
         nm, v = first_field(p, lambda v: isinstance(v, list))
         if nm is None:
@@ -207,6 +213,20 @@ def apply_op(mod, sc, live, op):
         setattr(v, n2, (v2 + 1) % 5)
         return slot
     raise ValueError(op)
+
+
+def run_quiet(mod, sc, hist, classes):
+    """the same operations with NO pack() at all (neither the history's nor the harness' observations):
+    returns the field snapshots of the live packets at the end, or None if an operation raised"""
+    live = []
+    for op in hist:
+        if op[0] == 'pack':
+            continue
+        try:
+            apply_op(mod, sc, live, op)
+        except Exception:
+            return None
+    return tuple(snap(p) for p in live)
 
 
 def run_history(mod, sc, hist, classes):
@@ -263,7 +283,7 @@ def run_history(mod, sc, hist, classes):
             sig = 'defaults changed' if now[0] != base_default[c][0] else 'default pack changed'
             return {'sig': sig, 'exp': base_default[c][1], 'got': now[1],
                     'what': 'after the history %s() holds/packs %r, before %r' % (c, now, base_default[c])}, None, trans
-    return None, tuple(S), trans
+    return None, (tuple(S), tuple(B)), trans
 
 
 def narrow(scname, err):
@@ -326,15 +346,23 @@ def _shard(shard, nshards, payload):
                     idx += 1
                     if idx % nshards != shard:
                         continue
-                    # class objects carry field state: every history runs on freshly defined classes
+                    # class objects carry field state: every history runs on freshly defined classes; first the
+                    # pack-free twin of the history (see below), then the history itself
                     with mk.World() as w:
                         mod, classes, body = define(scname, gen, w)
+                        quiet = run_quiet(mod, sc, hist, classes) if len(hist) >= 2 else None
                         err, canon, trans = run_history(mod, sc, hist, classes)
                     st.inc('histories')
                     st.inc('transitions', trans)
                     if canon is not None:
                         st.add('states', (scname, gen, common.digest(canon)))
                     st.add('outcomes', (scname, err['sig'] if err else None))
+                    if not err and canon is not None and len(hist) >= 2:
+                        # observational purity: the same operations with no pack() at all - neither the history's own
+                        # nor the harness' observations - must leave every packet reading the same
+                        if quiet is not None and quiet != canon[0]:
+                            err = {'sig': 'an earlier pack() changes later observations',
+                                   'what': 'the packets read %r, after the same operations without any pack() call they read %r' % (canon[0], quiet)}
                     if err:
                         st.violate(narrow(scname, err), '%s (generated=%s) history %r: %s' % (scname, gen, list(hist), err['what']),
                                    {'scenario': scname, 'gen': gen, 'hist': [list(o) for o in hist]}, snippet(scname, gen, hist))
@@ -373,7 +401,12 @@ def replay(case):
     if 'schedule' in case:
         from mc import sched_c13
         return sched_c13.replay(case)
+    hist = [tuple(o) for o in case['hist']]
+    sc = SCENARIOS[case['scenario']]
     with mk.World() as w:
         mod, classes, _ = define(case['scenario'], case['gen'], w)
-        err, _, _ = run_history(mod, SCENARIOS[case['scenario']], [tuple(o) for o in case['hist']], classes)
+        quiet = run_quiet(mod, sc, hist, classes) if len(hist) >= 2 else None
+        err, canon, _ = run_history(mod, sc, hist, classes)
+    if not err and quiet is not None and canon is not None and quiet != canon[0]:
+        err = {'sig': 'an earlier pack() changes later observations', 'what': 'with packs %r, without any pack %r' % (canon[0], quiet)}
     return [{'sig': narrow(case['scenario'], err), 'what': err['what']}] if err else []
